@@ -106,10 +106,103 @@ func C16Write(r *eng.Run) {
 	}
 }
 
+// c16ControlWriter: the control writer sits on the fragmenting writer; once
+// the destination has failed it goes on refusing like the writer below it
+// (a long-lived ControlWriter an application keeps for its pings).
+func c16ControlWriter(r *eng.Run) {
+	client := r.T.Bool(sim.LSide)
+	st := ws.StateServerSide
+	if client {
+		st = ws.StateClientSide
+	}
+	r.SetEntry("ControlWriter")
+	n := 2 + r.T.Int(sim.LHist, 6)
+	type step struct {
+		flush bool
+		k     int
+	}
+	var steps []step
+	for i := 0; i < n; i++ {
+		if r.T.Chance(sim.LHist, 1, 3) {
+			steps = append(steps, step{flush: true})
+		} else {
+			steps = append(steps, step{k: []int{0, 1, 10, 60, 100, 125}[r.T.Int(sim.LLen, 6)]})
+		}
+	}
+	steps = append(steps, step{flush: true}, step{k: 5}, step{flush: true})
+	buffered := r.T.Bool(sim.LCfg)
+	seed := r.T.U32(sim.LPaySeed)
+	rseed := int64(r.T.U32(sim.LMisc))
+	exec := func(failAt, failN int) (*Pipe, int) {
+		rand.Seed(rseed)
+		p := NewPipe(r, nil)
+		p.WFailAt, p.WFailN = failAt, failN
+		var cw *wsutil.ControlWriter
+		if buffered {
+			cw = wsutil.NewControlWriterBuffer(p, st, ws.OpPing, make([]byte, 140))
+		} else {
+			cw = wsutil.NewControlWriter(p, st, ws.OpPing)
+		}
+		fired, pending := -1, 0
+		for i, sp := range steps {
+			var err error
+			if sp.flush {
+				err = cw.Flush()
+				pending = 0
+			} else {
+				if pending+sp.k > 125 {
+					continue // would be refused for its size: not what is looked at here
+				}
+				_, err = cw.Write(patBytes(seed, i, sp.k))
+				pending += sp.k
+			}
+			if fired >= 0 && err == nil && (sp.flush || sp.k > 0) {
+				r.Failf("error_not_sticky", "ControlWriter: destination write call %d failed during step %d; later step %d (flush=%v, %d bytes) returned nil", failAt, fired, i, sp.flush, sp.k)
+			}
+			if fired < 0 && p.WriteFailed() {
+				fired = i
+			}
+		}
+		return p, fired
+	}
+	base, _ := exec(-1, 0)
+	W := append([]byte(nil), base.Out...)
+	calls := append([]int(nil), base.WCalls...)
+	r.Note("C16 ControlWriter client=%v buffered=%v steps=%v: %d destination writes", client, buffered, steps, len(calls))
+	r.Res.Nontrivial = len(calls) > 0
+	for j := range calls {
+		start := 0
+		if j > 0 {
+			start = calls[j-1]
+		}
+		for _, m := range []int{0, 1} {
+			if m >= calls[j]-start {
+				continue
+			}
+			r.Res.FaultPoints++
+			p, _ := exec(j, m)
+			if !p.WriteFailed() {
+				r.Internalf("write failure %d did not fire on replayed history", j)
+			}
+			r.Fault("write_fail")
+			if p.AfterErr != 0 {
+				r.Failf("bytes_after_failure", "ControlWriter: destination write call %d failed after %d bytes; %d more bytes were offered afterwards", j, m, p.AfterErr)
+			}
+			if len(p.Out) > len(W) || !bytes.Equal(p.Out, W[:len(p.Out)]) {
+				r.Failf("stream_with_hole", "ControlWriter: destination write call %d failed after %d bytes; what was received is not a prefix of the fault-free stream", j, m)
+			}
+		}
+	}
+}
+
 // C16 dispatches between the sub-workloads of the property.
 func C16(r *eng.Run) {
 	switch r.T.Int(sim.LEntry, 10) {
 	case 0, 1, 2:
+		if r.T.Chance(sim.LEntry, 1, 8) {
+			c16ControlWriter(r)
+			return
+		}
 		C16Write(r)
 	case 3, 4:
 		C16Handshake(r)
